@@ -169,4 +169,46 @@ ObsvOfEnv(s, x, jenv) ==
              icount |-> x.st.icount, fno |-> x.st.fno]]
 ObsvOf(s, x) == ObsvOfEnv(s, x, [lockK |-> 0, lockD |-> 0, ints |-> <<>>, draws |-> <<>>])
 
+\* ---- C11: contracts of the built-in OS trap routines ------------------------
+\* `mark` remembers the machine just before the TRAP instruction executes.
+MarkOf(s) == [reg |-> s.reg, psr |-> s.psr, pc |-> s.pc, kbd |-> s.kbd, disp |-> s.disp, memw |-> s.memw, ssp |-> s.ssp]
+RdMark(s, a) == IF a \in DOMAIN s.mark.memw THEN s.mark.memw[a] ELSE BaseRd(s.base, a)
+
+\* bytes PUTS emits for the zero-terminated string at address a (at most 300 words)
+RECURSIVE PutsBytes(_, _, _)
+PutsBytes(s, a, n) == LET w == RdMark(s, a).v IN
+  IF w = 0 \/ n = 0 THEN <<>> ELSE <<w % 256>> \o PutsBytes(s, Wrap(a + 1), n - 1)
+\* bytes PUTSP emits: low byte then high byte of each word, up to the first zero byte
+RECURSIVE PutspBytes(_, _, _)
+PutspBytes(s, a, n) == LET w == RdMark(s, a).v  lo == w % 256  hi == w \div 256 IN
+  IF lo = 0 \/ n = 0 THEN <<>>
+  ELSE IF hi = 0 THEN <<lo>>
+  ELSE <<lo, hi>> \o PutspBytes(s, Wrap(a + 1), n - 1)
+
+UserMemUnchanged(s) ==
+  \A a \in (DOMAIN s.memw) \cup (DOMAIN s.mark.memw) : InUser(a) => Rd(s, a) = RdMark(s, a)
+RegsUnchangedExcept(s, ex) == \A i \in 1..8 : (i - 1) \in ex \/ s.reg[i] = s.mark.reg[i]
+
+TrapContract(s, vect, prompt_addr) ==
+  LET m == s.mark  r0 == m.reg[1].v IN
+  (IF \/ s.pc # Wrap(m.pc + 1) THEN {"trap-return-pc"} ELSE {})
+  \cup (IF s.psr # m.psr THEN {"trap-psr"} ELSE {})            \* condition codes, privilege, priority
+  \cup (IF UserMemUnchanged(s) THEN {} ELSE {"trap-user-memory"})
+  \cup (IF s.ssp = m.ssp THEN {} ELSE {"trap-ssp"})
+  \cup (CASE vect = 32 ->      \* GETC
+               (IF m.kbd # <<>> /\ s.reg[1] = Init16(Head(m.kbd)) /\ s.kbd = Tail(m.kbd) /\ s.disp = m.disp
+                   /\ RegsUnchangedExcept(s, {0}) THEN {} ELSE {"trap-getc"})
+          [] vect = 33 ->      \* OUT / PUTC
+               (IF s.disp = m.disp \o <<r0 % 256>> /\ s.kbd = m.kbd /\ RegsUnchangedExcept(s, {}) THEN {} ELSE {"trap-out"})
+          [] vect = 34 ->      \* PUTS
+               (IF s.disp = m.disp \o PutsBytes(s, r0, 300) /\ s.kbd = m.kbd /\ RegsUnchangedExcept(s, {}) THEN {} ELSE {"trap-puts"})
+          [] vect = 36 ->      \* PUTSP
+               (IF s.disp = m.disp \o PutspBytes(s, r0, 300) /\ s.kbd = m.kbd /\ RegsUnchangedExcept(s, {}) THEN {} ELSE {"trap-putsp"})
+          [] vect = 35 ->      \* IN: prompt, echo, R0
+               (IF m.kbd # <<>> /\ s.reg[1] = Init16(Head(m.kbd)) /\ s.kbd = Tail(m.kbd)
+                   /\ s.disp = (m.disp \o PutsBytes(s, prompt_addr, 300)) \o <<Head(m.kbd)>>
+                   /\ PutsBytes(s, prompt_addr, 300) # <<>>
+                   /\ RegsUnchangedExcept(s, {0}) THEN {} ELSE {"trap-in"})
+          [] OTHER -> {})
+
 =============================================================================
